@@ -157,6 +157,7 @@ func lutimes(path string, t syscall.Timespec) error {
 }
 
 var corruptSeq int64
+var bulkSeq int64
 var recordSeq int64
 var linkWorldSeq int64
 
@@ -246,6 +247,9 @@ func (a snapshot) diff(b snapshot) []string {
 // ---- one case ---------------------------------------------------------------------------
 
 type world struct {
+	// bulk: entry-named files the model does not list one by one (2100 of them in one subdirectory, all unused for a
+	// month): a trim that runs removes every one of them
+	bulk  map[string]bool
 	root  string
 	c     *cache.Cache
 	paths map[string]string // model file -> path relative to root
@@ -408,6 +412,24 @@ func build(cs *caseJ, root string) (*world, error) {
 	for i := 0; i < 256; i++ {
 		t := now.Add(-mins(60 * 24 * 60))
 		os.Chtimes(filepath.Join(root, fmt.Sprintf("%02x", i)), t, t)
+	}
+	// one world in forty is crowded: 2100 more entries, all a month old, in the subdirectory of its first index entry
+	if atomic.AddInt64(&bulkSeq, 1)%40 == 7 && len(ids) > 0 {
+		sub := filepath.Dir(filepath.Join(root, w.paths[fmt.Sprintf("a%d", ids[0])]))
+		w.bulk = map[string]bool{}
+		t := now.Add(-mins(30 * 24 * 60))
+		for k := 0; k < 2100; k++ {
+			name := fmt.Sprintf("%s%060x-a", filepath.Base(sub), k+1)
+			p := filepath.Join(sub, name)
+			if err := os.WriteFile(p, []byte("v1 bulk\n"), 0o666); err != nil {
+				return nil, err
+			}
+			os.Chtimes(p, t, t)
+			rel, _ := filepath.Rel(root, p)
+			w.bulk[filepath.ToSlash(rel)] = true
+		}
+		t60 := now.Add(-mins(60 * 24 * 60))
+		os.Chtimes(sub, t60, t60)
 	}
 	tp := filepath.Join(root, "trim.txt")
 	switch cs.Init.TT.K {
@@ -649,7 +671,7 @@ func runCase(res *vutil.Result, line []byte, n int) {
 		relKnown[rel] = true
 	}
 	for p := range before.Files {
-		if !relKnown[p] {
+		if !relKnown[p] && !w.bulk[p] {
 			v.drift("unexpected-file-before-trim", "a file neither the driver nor the model knows exists before the judged trim: "+p, nil)
 		}
 	}
@@ -795,7 +817,26 @@ func runCase(res *vutil.Result, line []byte, n int) {
 			res.Count("free_files", 1)
 		}
 	}
+	leftBulk, wasBulk := 0, 0
+	for p := range w.bulk {
+		if _, was := before.Files[p]; was {
+			wasBulk++
+			if _, is := after.Files[p]; is {
+				leftBulk++
+			}
+		}
+	}
+	if leftBulk > 0 {
+		v.violate("stale-entry-kept", "crowded subdirectory",
+			fmt.Sprintf("history [%s]: Trim ran but kept %d of %d entries of one subdirectory that were all unused for a month", hist, leftBulk, wasBulk), detail)
+	}
+	if wasBulk > 0 {
+		res.Count("crowded_subdirectory_trims", 1)
+	}
 	for p := range after.Files {
+		if w.bulk[p] {
+			continue
+		}
 		if _, ok := known[p]; !ok {
 			v.drift("unexpected-file", "Trim left a file the model does not know: "+p, nil)
 		}
